@@ -41,6 +41,7 @@ def hex_states(rep, name, **kw):
         if k in kw:
             explore_kw[k] = kw.pop(k)
     sysm = HexSys(seed=rep.seed, **kw)
+    explore_kw.setdefault("state_cap", 2 * (len(sysm.vals) + 1) ** len(sysm.keys) + 50)
     res = explore(sysm, **explore_kw)
     rep.add_bfs(name + " [state set]", res, sysm, keep_samples=1)
     return sysm, res.state_list
